@@ -1,2 +1,3 @@
+@steps.setter
 def spec(self, value):
     self.__num_steps = argtest.gt('steps', value, 0, int)
